@@ -5,11 +5,13 @@ import (
 	"fmt"
 	"io"
 	"log/slog"
+	"reflect"
 	"strconv"
 	"testing"
 	"testing/synctest"
 
 	"github.com/fogfish/golem/pipe/v2"
+	"github.com/fogfish/golem/pipe/v2/fork"
 	"verif/harness/bubble"
 
 	"pgregory.net/rapid"
@@ -196,6 +198,9 @@ func classify(sc *Scenario, r Result) (bool, []string) {
 		if sc.T.CancelAt > 0 {
 			cl = append(cl, "cancel-mid-run")
 		}
+		if len(sc.T.Slow) > 0 {
+			cl = append(cl, "step-function-takes-time")
+		}
 		return r.Received >= 3 && (sc.Caps0() < r.Received || idle), cl
 	case "C13":
 		cl = []string{"ops=" + strconv.Itoa(sc.Ops), "cap=" + strconv.Itoa(sc.Caps0())}
@@ -270,6 +275,14 @@ func TestC05(t *testing.T) {
 func TestC05Seq(t *testing.T) {
 	rapid.Check(t, func(rt *rapid.T) {
 		xs := rapid.SliceOfN(rapid.IntRange(-5, 20), 0, 24).Draw(rt, "xs")
+		if rapid.IntRange(0, 9).Draw(rt, "long") == 0 {
+			n := rapid.IntRange(1000, 2200).Draw(rt, "longLen")
+			k := rapid.IntRange(1, 17).Draw(rt, "stride")
+			xs = make([]int, n)
+			for i := range xs {
+				xs[i] = (i*k)%23 - 2
+			}
+		}
 		chain := rapid.SliceOfN(rapid.SampledFrom([]string{"map", "filter", "take", "takeWhile", "fmap"}), 0, 4).Draw(rt, "chain")
 		sc := &Scenario{Prop: "C05", Stage: "seq", In: [][]int{xs}, Mode: "pure"}
 		genFunc(rt, sc)
@@ -292,9 +305,11 @@ func TestC05Seq(t *testing.T) {
 
 func runSeq(sc *Scenario) string {
 	xs := sc.In[0]
-	in := pipe.Seq(xs...)
-	if cap(in) != len(xs) || len(in) != len(xs) {
-		return fmt.Sprintf("Seq(%d elements) has len %d cap %d", len(xs), len(in), cap(in))
+	buf := append([]int{}, xs...)
+	in := pipe.Seq(buf...)
+	// the caller re-uses its slice once Seq has returned: the stream must hold the values of the call
+	for i := range buf {
+		buf[i] = -999
 	}
 	ctx, cancel := context.WithCancel(context.Background())
 	defer cancel()
@@ -457,6 +472,90 @@ func TestReplayFree(t *testing.T) {
 	}
 }
 
+// TestC10Ref: commutative monoids whose carrier is a reference type and whose Combine merges into its left operand
+// (a histogram map, a counter behind a pointer): Empty() hands out a fresh accumulator each time it is asked.
+type hist map[int]int
+
+type histMonoid struct{ empties *int }
+
+func (m histMonoid) Empty() hist { *m.empties++; return hist{} }
+func (m histMonoid) Combine(a, b hist) hist {
+	for k, v := range b {
+		a[k] += v
+	}
+	return a
+}
+
+type cnt struct{ n, sum int }
+type cntMonoid struct{}
+
+func (cntMonoid) Empty() *cnt { return &cnt{} }
+func (cntMonoid) Combine(a, b *cnt) *cnt {
+	a.n, a.sum = a.n+b.n, a.sum+b.sum
+	return a
+}
+
+func TestC10Ref(t *testing.T) {
+	rapid.Check(t, func(rt *rapid.T) {
+		sc := &Scenario{Prop: "C10", Stage: "fork.fold/ref", Par: rapid.IntRange(1, 6).Draw(rt, "par"), Caps: []int{rapid.IntRange(0, 4).Draw(rt, "cap")},
+			In: [][]int{rapid.SliceOfN(rapid.IntRange(0, 5), 0, 16).Draw(rt, "in")}, Monoid: rapid.IntRange(0, 1).Draw(rt, "carrier")}
+		msg := ""
+		b := bubble.Run(t, func() { msg = runFoldRef(sc) })
+		if msg == "" {
+			msg = b
+		}
+		vk.Record(sc, len(sc.In[0]) >= 2, "stage=fork.fold/ref", "par="+strconv.Itoa(sc.Par))
+		if msg != "" {
+			vk.Fail("C10", "TestC10Ref", "", sc, msg)
+			rt.Fatalf("%s", msg)
+		}
+	})
+}
+
+func runFoldRef(sc *Scenario) string {
+	xs := sc.In[0]
+	ctx := context.Background()
+	if sc.Monoid == 0 {
+		want := hist{}
+		for _, x := range xs {
+			want[x]++
+		}
+		feed := func() <-chan hist {
+			in := make(chan hist, sc.Caps0())
+			go func() {
+				for _, x := range xs {
+					in <- hist{x: 1}
+				}
+				close(in)
+			}()
+			return in
+		}
+		var n1, n2 int
+		got, ok := <-fork.Fold[hist](ctx, sc.Par, feed(), histMonoid{&n1})
+		seq, ok2 := <-pipe.Fold[hist](ctx, feed(), histMonoid{&n2})
+		if !ok || !ok2 || !reflect.DeepEqual(got, want) || !reflect.DeepEqual(seq, want) {
+			return fmt.Sprintf("histogram monoid (map carrier, Combine merges into its left operand), %d workers over %v: fork.Fold = %v, pipe.Fold = %v, expected %v", sc.Par, xs, got, seq, want)
+		}
+		return ""
+	}
+	want := cnt{}
+	for _, x := range xs {
+		want.n, want.sum = want.n+1, want.sum+x
+	}
+	in := make(chan *cnt, sc.Caps0())
+	go func() {
+		for _, x := range xs {
+			in <- &cnt{1, x}
+		}
+		close(in)
+	}()
+	got, ok := <-fork.Fold[*cnt](ctx, sc.Par, in, cntMonoid{})
+	if !ok || got == nil || *got != want {
+		return fmt.Sprintf("counter monoid (pointer carrier), %d workers over %v: fork.Fold = %+v, expected %+v", sc.Par, xs, got, want)
+	}
+	return ""
+}
+
 func TestC12(t *testing.T) {
 	rapid.Check(t, func(rt *rapid.T) { check(t, rt, "C12", "TestC12", genC12(rt), 1) })
 }
@@ -497,7 +596,7 @@ func TestC07Enum(t *testing.T) {
 						if cnt%shards != shard {
 							continue
 						}
-						sc := &Scenario{Prop: "C07", Stage: k.stage, Mode: k.mode, A: 1, B: 3, Caps: []int{c}, ErrKind: cnt % 4, CtxErr: cnt%2 == 0}
+						sc := &Scenario{Prop: "C07", Stage: k.stage, Mode: k.mode, A: 1, B: 3, Caps: []int{c}, ErrKind: cnt % 5, CtxErr: cnt%2 == 0}
 						switch k.stage {
 						case "map", "fmap":
 							in := make([]int, n)
@@ -531,6 +630,12 @@ func TestC07Enum(t *testing.T) {
 							sc.Script = genericConsumer(name, n)
 						}
 						check(t, t, "C07", "TestC07", sc, 1)
+						if name == "fair-only" && (k.stage == "map" || k.stage == "fmap") {
+							// the same run with the library's own error reader (StdErr) instead of the harness's
+							sc2 := *sc
+							sc2.StdErr = true
+							check(t, t, "C07", "TestC07", &sc2, 1)
+						}
 					}
 				}
 			}
@@ -583,7 +688,7 @@ func TestC06Cancel(t *testing.T) {
 								continue
 							}
 							sc := &Scenario{Prop: "C06", Stage: stage, Mode: mode, Caps: []int{c}, In: [][]int{{3, 1, 4, 1, 5, 9, 2, 6}}, A: 1, B: 2, N: 3,
-								Fail: []int{4, 2}, Ops: 2, Interval: 2, Freq: 1, Seed: 7, NoFinish: nofinish, CtxErr: cnt%2 == 0, ErrKind: cnt % 4}
+								Fail: []int{4, 2}, Ops: 2, Interval: 2, Freq: 1, Seed: 7, NoFinish: nofinish, CtxErr: cnt%2 == 0, ErrKind: cnt % 5}
 							if stage == "join" {
 								sc.In = [][]int{{0, 1, 2}, {1000, 1001}, {2000}}
 								sc.Caps = []int{c, 0, 1}
